@@ -58,7 +58,7 @@ def run_cell(cell, timeout):
         p = subprocess.run([vlib.PY, WORKER, json.dumps(cell)], env=vlib.pyenv(), stdout=subprocess.PIPE,
                            stderr=subprocess.PIPE, timeout=timeout, text=True, errors='replace')
     except subprocess.TimeoutExpired:
-        return {'status': 'timeout', 'wall': round(time.time() - t0, 1)}
+        return {'status': 'timeout', 'wall': round(time.time() - t0, 1), 'limit_s': timeout}
     r = {'status': 'done', 'rc': p.returncode, 'wall': round(time.time() - t0, 2)}
     try:
         r['res'] = json.loads(p.stdout.strip().splitlines()[-1])
@@ -74,12 +74,19 @@ def run_cell(cell, timeout):
 
 def verdict(cell, r):
     """None: the cell satisfies the property; 'inconclusive'; or a failure dict"""
-    if r['status'] == 'timeout':
-        return 'inconclusive'
-
     def fail(kind, obs):
         return {'cell': cell, 'kind': kind, 'observed': obs,
                 'reproducer': "PYTHONPATH=%s /venv/bin/python tools/impl_c15.py '%s'" % (vlib.REPO, json.dumps(cell))}
+    if r['status'] == 'timeout':
+        # a cell that costs well under a second on the unchanged tree (calibrated: est_cost) and has not come back after
+        # a minute neither succeeded nor raised SQLParseError: work that explodes with the nesting depth.  Cells that are
+        # expensive anyway (deep trees) stay inconclusive.
+        if 'headroom' not in cell and r.get('limit_s', 0) >= 60 and \
+                est_cost(cell['construct'], cell['depth'], cell['limit'], cell['entry'], cell['opts']) <= 1.0:
+            return fail('no-result', 'the call neither returned nor raised within %s s (a cell of about %.1f s on the unchanged '
+                        'tree): nesting depth %d' % (r.get('limit_s'), est_cost(cell['construct'], cell['depth'], cell['limit'],
+                                                                                 cell['entry'], cell['opts']), cell['depth']))
+        return 'inconclusive'
     if r['status'] == 'crash':
         return fail('crash', 'interpreter exit status %s: %s' % (r.get('rc'), (r.get('stderr') or '')[-300:]))
     res = r['res']
